@@ -50,8 +50,8 @@ def run(chk, repo):
     from .common_rules import parse_and_transform, to_dict_contract, to_dict_rules
     chk.rule("C16-V5", "the volume directory is parsed with volume_directory_record, converted by to_dict and transformed by transform_record", 4)
     to_dict_rules(chk, repo, "C16-V5")
-    parse_and_transform(chk, repo, "C16-V5", "ceos_alos2.volume_directory.io", "volume_directory_record", "transform_record", "open_volume_directory")
     chk.attempt(opener_contents, chk, repo)
+    chk.attempt(parse_and_transform, chk, repo, "C16-V5", "ceos_alos2.volume_directory.io", "volume_directory_record", "transform_record", "open_volume_directory", covered_by="opener_contents")
 
 
 def opener_contents(chk, repo):
